@@ -667,7 +667,9 @@ def match_finding(c, what):
     if "dupes-check-skipped]" not in what:
         return None
     if "[mode=positional " in what:
-        return "C11-dupes-check-skipped-positional"
+        # with positional matching only STRING keys are affected (c11_lookup_by_object covers every
+        # object that a single column carries, on either path)
+        return "C11-dupes-check-skipped-positional" if what.startswith("string key") else None
     if "[mode=none " in what:
         return "C11-plain-text-duplicate-names"
     return "C11-dupes-check-skipped-count-heuristic"
